@@ -415,4 +415,14 @@ theorem mapped_str_new_as_translated_from_source (m : Mode) (valid : List UInt8 
       = (Generated.gen_MappedStr_new m valid file offset).bind (fun r => ok (GenEq.mn_bytesView r)) :=
   ⟨GenEq.mapped_str_new_eq_bytes m valid file offset, GenEq.mapped_str_view_eq m valid file offset⟩
 
+/-- **`MappedOption<T>::new` as translated from the source on this run**, for ANY inner view constructor `T::new` (a parameter of
+the translation) and any reading `toV` of what it returns: the range test, the `data_len` header, `T::new(map, offset + 1)?` only
+when the length is non-zero, `result.data = Some(value)`.  The model's optional view is exactly the image of what the code
+returns, faults included (the zero-sized `_marker` field is dropped). -/
+theorem mapped_option_new_as_translated_from_source (m : Mode) (inner : Array Word → Nat → Outcome MappedSliceR)
+    (toV : MappedSliceR → View) (file : Array Word) (offset : Nat) :
+    View.option m (fun f o => (inner f o).bind (fun r => ok (toV r))) file offset
+      = (Generated.gen_MappedOption_new m inner file offset).bind (fun r => ok (GenEq.mn_optionView toV r)) :=
+  GenEq.mapped_option_view_eq m inner toV file offset
+
 end Sds.C13
